@@ -219,6 +219,10 @@ func genCompletion(r *rand.Rand, t *Tree, id int) *CompScn {
 					last = "--" + it.nsLong + "=" + pick(r, []string{"", "a", "be"})
 				}
 			}
+			if it.o.Short != "" && canArgNode(it.o) && chance(r, 0.4) {
+				// the value attached to a declared short name (whatever its width in bytes), plain or after '='
+				last = "-" + it.o.Short + pick(r, []string{"", "a", "al", "b", "be", "=", "=a", "=g"})
+			}
 		}
 	}
 	words = append(words, last)
